@@ -81,6 +81,6 @@ StLmi == stage = "lmi" /\ bad' = bad \cup LmiClauses(T) /\ stage' = "done"
 StPerm == stage = "perm" /\ bad' = bad \cup PermClauses(T) /\ stage' = "done"
 TNext == (StSamples \/ StScalar \/ StLmi \/ StPerm) /\ UNCHANGED <<tid, cls, hist, order>>
 TSpec == TInit /\ [][TNext]_tvars
-\* the verdict is printed as one JSON line (TLC wraps long tuples over several lines)
-Report == stage = "done" => PrintT(ToJson([v |-> "V", tid |-> tid, bad |-> bad]))
+\* the verdict is printed as one JSON line (TLC wraps long tuples over several lines); parsed by core.verdicts
+Report == stage = "done" => PrintT(ToJson(<<"V", tid, bad>>))
 =============================================================================
